@@ -1,3 +1,4 @@
+import os
 """Calls: builtins, trusted library models, modular (contract) calls, inlined spec functions, clause evaluation."""
 import z3
 
@@ -58,7 +59,13 @@ class CallMixin:
                     return self.invoke(f, self.eval_args(e, self.T(e["Fun"]), st), st, e)
             if fv.kind == "bound":
                 return self.call_bound(fv, self.eval_args(e, self.T(e["Fun"]), st), st, e)
-        return self.unknown_call("<dynamic>", e, st)
+        fe = e["Fun"]
+        dyn = "<dynamic>"
+        if fe.get("k") == "SelectorExpr":
+            dyn = "fn:" + fe["Sel"]["Name"]   # call through a function-valued field: named by the field
+        elif fe.get("k") == "Ident":
+            dyn = "fn:" + fe.get("Name", "?")
+        return self.unknown_call(dyn, e, st)
 
     def call_bound(self, fv, args, st, e):
         f = self.prog.funcs.get(fv.key)
@@ -446,8 +453,11 @@ class CallMixin:
                 out.append({"kind": "param-region", "index": names[item]})
             elif "." in item:
                 a, b = item.split(".", 1)
+                contents = b.endswith("[*]")   # recv.field[*]: the field and every element of the array it points to
+                if contents:
+                    b = b[:-3]
                 tn = self.resolve_type_name(f, a, names)
-                out.append({"kind": "field", "type": tn, "field": b, "via": a})
+                out.append({"kind": "field", "type": tn, "field": b, "via": a, "contents": contents})
             else:
                 raise Unsupported("modifies item %r of %s" % (item, f.full))
         return out
@@ -715,6 +725,7 @@ class CallMixin:
             self.record_call_values(st, self.prog.short(f.full), pvals0, ptypes0)
         self.trace_event(st, self.prog.short(f.full))
         post.ghost = dict(st.ghost)
+        emitted_any = False
         for nm in self.contract_emits(f):
             key = "ev:" + nm
             cur = post.ghost.get(key)
@@ -723,7 +734,24 @@ class CallMixin:
             d = self.fresh("calls@" + nm, z3.BitVecSort(64))
             self.facts.append(z3.And(z3.ULE(d, z3.BitVecVal(1 << 40, 64))))
             post.ghost[key] = cur + d
+            # order: if the callee performed the operation, its last occurrence lies inside the call's time window
+            clk0 = post.ghost.get("clock")
+            if clk0 is None:
+                clk0 = z3.BitVecVal(0, 64)
+            sq = self.fresh("seq@" + nm, z3.BitVecSort(64))
+            self.facts.append(z3.And(z3.UGT(sq, clk0), z3.ULE(sq, clk0 + z3.BitVecVal(1 << 20, 64))))
+            oldsq = post.ghost.get("seq:" + nm)
+            if oldsq is None:
+                oldsq = z3.BitVecVal(0, 64)
+            post.ghost["seq:" + nm] = z3.If(d == z3.BitVecVal(0, 64), oldsq, sq)
+            emitted_any = True
             self.events_seen.add(nm)
+        if emitted_any:
+            clk0 = post.ghost.get("clock")
+            if clk0 is None:
+                clk0 = z3.BitVecVal(0, 64)
+            post.ghost["clock"] = clk0 + z3.BitVecVal(1 << 20, 64)
+        n_call_facts = len(self.facts)
         sig = self.prog.types[node["sig"]].under().d
         rtypes = [self.prog.types[r["t"]] for r in sig.get("results") or []]
         results = []
@@ -763,9 +791,41 @@ class CallMixin:
                     self.arg_types[(shortf, "ret")] = rt_
         st.mem, st.heap, st.ghost = post.mem, post.heap, post.ghost
         self.called_contracts.add(f.full)
+        if not self.spec:
+            self.check_call_consistent(f, e, st, n_call_facts)
         if len(results) == 1:
             return results[0]
         return TupleV(results)
+
+    def check_call_consistent(self, f, e, st, n0):
+        """Vacuity guard: the postcondition assumed for a modular call must not contradict the path it is assumed on
+        (e.g. a callee whose `modifies` omits a field it writes: the caller would keep the stale value, the assumed
+        postcondition would contradict it, and everything after the call would verify vacuously)."""
+        new = [x for x in self.facts[n0:] if not z3.is_true(x)]
+        if not new:
+            return
+        s1 = z3.Solver()
+        s1.set("timeout", 400)
+        s1.add(st.pc)
+        if s1.check() != z3.sat:
+            return
+        for x in new:
+            s1.add(x)
+        if s1.check() == z3.unsat:
+            if os.environ.get("GOVC_DEBUG_VAC"):
+                s2 = z3.Solver(); s2.set(unsat_core=True)
+                s2.assert_and_track(st.pc, "pc")
+                for i_, x in enumerate(new):
+                    s2.assert_and_track(x, "n%d" % i_)
+                s2.check()
+                for c_ in s2.unsat_core():
+                    nm_ = str(c_)
+                    print("VACCORE", nm_, (str(st.pc) if nm_ == "pc" else str(new[int(nm_[1:])]))[:1500])
+            if not hasattr(self, "vacuous_calls"):
+                self.vacuous_calls = []
+            self.vacuous_calls.append(("call-post-consistent:%s@%s" % (f.key, self.site(e)),
+                                       "the postcondition assumed for the call of %s contradicts the caller's state on this path "
+                                       "(stale frame / contradictory contract): everything after the call would verify vacuously" % f.key))
 
     def apply_modifies(self, m, f, post, st):
         if m["kind"] == "param-region":
@@ -798,9 +858,16 @@ class CallMixin:
                     t = pv.elem
             if oid is not None:
                 ft = [x for x in t.fields() if x[0] == fn][0][1]
-                lv = HeapLV(oid, t, fn, ft)
-                self.frame_obj_write(st, oid, t, fn)
-                if ft.under().k == "slice" and is_scalar_type(ft.elem()):
+                lv = self.field_lv(pv, t, fn, ft)   # (an interior pointer addresses the root object's cells)
+                self.frame_obj_write(st, oid, lv.owner, lv.name)
+                if ft.under().k == "slice" and m.get("contents"):
+                    cur = lv.get(self, post)
+                    self.frame_region_write(st, cur.rid, None)
+                    for i_, (_, srt_) in enumerate(leaves(ft.elem())):
+                        key_ = self.mem_key(ft.elem(), i_, srt_)
+                        mm_ = self.mem_arr(post, key_, srt_)
+                        post.mem[key_] = z3.Store(mm_, cur.rid, self.fresh("reg@callfield", z3.ArraySort(IS, srt_)))
+                elif ft.under().k == "slice" and is_scalar_type(ft.elem()):
                     # the callee may append in place: the array the field points to may change beyond the current length
                     cur = lv.get(self, post)
                     srt = leaves(ft.elem())[0][1]
